@@ -137,6 +137,20 @@ class HGen:
                 out.append((version, [], ops, 30))
         return out
 
+    def skip_then_validate(self):
+        """the same request twice on one endpoint, first with validation skipped, then without (and the other way round):
+        what the first call did says nothing about the second"""
+        out = []
+        for version, bad in (("1.6", {"type": "NotAType"}), ("2.0.1", {"type": "NotAType", "extra": 1})):
+            good = {"type": "Hard" if version == "1.6" else "Immediate"}
+            for first_skip in (True, False):
+                ops = []
+                for k, (payload, skip) in enumerate([(bad, first_skip), (bad, not first_skip), (bad, first_skip), (good, False), (bad, False)]):
+                    ops += [("start", k, "r%d" % k, "Reset", payload, skip, False, True),
+                            ("inbound", json.dumps([3, "r%d" % k, {"status": "Accepted"}])), ("tick", 1)]
+                out.append((version, [], ops, 30))
+        return out
+
     def reply_burst(self, n):
         """a caller is waiting; the reader finds n stale replies and then the matching one all buffered and routes
         them back to back; before that, n unsolicited replies while nobody waits"""
@@ -206,7 +220,7 @@ class HGen:
             timeout = self.rng.choice([30, 2, 10, 2.5, 0.75, 1.75, 30.25])
             hs.append(self.history(self.rng.choice([6, 12, 25, 40]) if self.tier == "quick" else self.rng.choice([10, 40, 120]), timeout))
         hs.append(self.stale_flood(300 if self.tier == "quick" else 3000))
-        return self.skip_overlap() + self.special_ids() + self.error_codes() + self.reply_burst(1100 if self.tier == "quick" else 2600) + hs
+        return self.skip_overlap() + self.skip_then_validate() + self.special_ids() + self.error_codes() + self.reply_burst(1100 if self.tier == "quick" else 2600) + hs
 
 
 def run_histories(rep, hs, tag, prop_id, oracle, view, shard_size=8, async_validation=False):
